@@ -221,6 +221,8 @@ def mkpset(p, kind):
     """Constraints on the probability vector p (2 scenarios)."""
     rso = R['rso']
     h = np.array([0.5, 0.5])
+    if kind == 'pnone':         # probset() without arguments: reset to the whole simplex
+        return []
     if kind == 'pbox':
         return [p <= np.array([0.75, 0.625])]
     if kind == 'pn1':
